@@ -224,6 +224,12 @@ def decide(pid, tier, spec, seed, t0, workdir, ev_path):
             os.remove(witness_file)
         rc, out = run_witness(wit_args, witness_file, seed, [k['id'] for k in known if k.get('matcher')])
         witness_info = dict(cmd='replay search ' + ' '.join(wit_args), exit=rc, summary=out.strip()[-600:])
+        for line in out.split('\n'):
+            if line.startswith('stats-json:'):
+                try:
+                    witness_info['stats'] = json.loads(line[len('stats-json:'):])
+                except json.JSONDecodeError:
+                    pass
         if rc == 3:
             failures.append(dict(obligation=f'differential/{wit_args[0]}', unit='replay', error=dict(
                 fn=None, message='bounded differential search found a failing input on the real code',
@@ -325,6 +331,13 @@ def decide(pid, tier, spec, seed, t0, workdir, ev_path):
         undecided=undecided,
         verus_version=next((results[u].verus_version for u in all_units if results[u].verus_version), ''),
     )
+    if witness_info and witness_info.get('stats'):
+        st = witness_info['stats']
+        coverage['evaluations'] = st.get('evaluations', 0)
+        coverage['distinct_nontrivial'] = st.get('distinct_nontrivial', 0)
+        coverage['rule'] = st.get('rule', '')
+        if level in ('exploration', 'fault_enumeration') or not coverage['samples']:
+            coverage['samples'] = st.get('samples', [])
     evidence = dict(property_id=pid, tier=tier, seed=seed, level=level, coverage=coverage,
                     assumptions=VERUS_TRUST + spec.get('trust', []) + sorted(set(assumptions)) + [
                         'unverified (outside every contract): ' + x for x in spec.get('unverified', [])],
